@@ -162,7 +162,10 @@ func RunPlan(run *ev.Run, plan Plan, replay string) {
 		return
 	}
 	var states, transitions int64
-	for _, e := range plan.Exhaustive {
+	for ei, e := range plan.Exhaustive {
+		if sh, n := ev.Shard(); ei%n != sh {
+			continue // the exhaustive runs are divided among the shards
+		}
 		w := e.Workers
 		if w == 0 {
 			w = 16
@@ -183,7 +186,10 @@ func RunPlan(run *ev.Run, plan Plan, replay string) {
 		run.Set("exhaustive_"+e.File, map[string]interface{}{"distinct_states": res.Distinct, "generated": res.Generated, "depth": res.Depth, "wall_s": res.Wall.Seconds()})
 	}
 	seed := ev.Seed()
+	shard, nshards := ev.Shard()
+	seed = seed*1000003 + int64(shard)*7919
 	for i, sc := range plan.Sims {
+		sc.Num = (sc.Num + nshards - 1) / nshards
 		traces, res, err := Generate(sc, seed+int64(i)*1000)
 		if err != nil {
 			run.Machinery("tlc simulate %s: %v", sc.File, err)
